@@ -4,7 +4,7 @@ from gen import *
 import vlib
 
 LEVEL = "proof"
-RULE = ("every table up to 5 (quick) / 7 (thorough) bytes over {00,'a',C3,A9} with every offset 0..len+2 (exhaustive); random "
+RULE = ("every table up to 5 (quick) / 7 (thorough) bytes over {00,'a',C3,A9} with every offset 0..len+2 (exhaustive); 8..40-byte tables over {00,01,02,61,7f,80,81,ff} (bytes adjacent to NUL in every bit position, chunk-boundary lengths) with offsets around every 8-byte boundary; random "
         "tables up to 4 KiB with random offsets incl. usize::MAX; utf8 op on all 1-byte, sampled/all 2-byte and structured 3-4 "
         "byte strings. Oracle: independent python computation (bytes.index / strict utf-8 decode). Non-trivial: an Ok lookup.")
 ASSUMPTIONS = ["core::str::from_utf8 is modelled by the Table 3-7 automaton (validated against the real function by the utf8 cases)"]
@@ -31,6 +31,21 @@ def gen(rng, tier):
         qs = []
         for off in offs:
             qs += ["raw %d" % off, "get %d" % off]
+        cases.append("strtab %s | %s" % (hx(data), " | ".join(qs)))
+    # medium tables (8..40 bytes) over bytes adjacent to NUL in every bit position: word-at-a-time NUL searches
+    # (SWAR tricks, chunked scans) go wrong on 0x01/0x80/0x7f/0xff next to a NUL or at chunk boundaries
+    swar = [0x00, 0x01, 0x80, 0x81, 0x7f, 0xff, 0x61, 0x02]
+    for _ in range(500 if tier == "quick" else 15000):
+        ln = rng.choice([8, 9, 15, 16, 17, 24, 31, 32, 33, 40, rng.randrange(8, 41)])
+        p0 = rng.choice([0.05, 0.15, 0.3])
+        data = bytes(0 if rng.random() < p0 else rng.choice(swar[1:]) for _ in range(ln))
+        if rng.random() < 0.7:
+            data = data[:-1] + b"\0"
+        offs = sorted(set([rng.randrange(0, ln) for _ in range(5)] + [0, 1, ln - 8, ln - 9, ln - 1, ln]))
+        qs = []
+        for off in offs:
+            if off >= 0:
+                qs += ["raw %d" % off, "get %d" % off]
         cases.append("strtab %s | %s" % (hx(data), " | ".join(qs)))
     # from_utf8 environment model
     for a in range(256):
